@@ -7,15 +7,25 @@ from eglib import graphs
 def cases(classes=7, max_v=6, max_e=10):
     def mk(g, memb, opt, extra):
         nv = g["nv"]
-        return {"g": g, "uni": list(dict.fromkeys(x % nv for x in memb)), "opt": opt, "extra": extra}
+        # "uni" may name a vertex more than once: Universe(vertices=...) takes each once
+        return {"g": g, "uni": [x % nv for x in memb], "opt": opt, "extra": extra}
 
     return st.builds(
         mk,
         st.one_of(graphs.graph_descs(max_v, max_e, classes, max_reassign=2, wide=True), graphs.graph_descs(max_v, max_e, classes, min_v=3, min_e=3, max_reassign=2, wide=True)),
         st.lists(st.integers(0, max_v - 1), max_size=max_v),
-        st.integers(0, 127),
+        st.integers(0, 511),
         st.integers(0, 7),
     )
+
+
+def distinct(seq):
+    """The distinct objects of seq (by identity), in first-occurrence order: 'the member vertices' of a universe."""
+    out = []
+    for x in seq:
+        if all(x is not y for y in out):
+            out.append(x)
+    return out
 
 
 def perturb(case, vs, ls, u):
